@@ -37,6 +37,7 @@ def parseProposal (p : Json) : Proposal :=
   let t := J.get p "final_tally_result"
   { id := (J.intOf p "proposal_id").toNat, kind := kindOfType (J.strOf c "@type"),
     cuCertifier := J.strOf c "certifier", cuAlias := J.strOf c "alias", cuAdd := J.strOf c "add_or_remove" != "remove", cuProposer := J.strOf c "proposer",
+    clPool := (J.intOf c "pool_id").toNat, clPurchase := (J.intOf c "purchase_id").toNat, clLoss := J.sdkCoins (J.get c "loss"),
     status := statusOf (J.strOf p "status"), isCouncil := J.boolOf p "is_proposer_council_member", proposer := J.strOf p "proposer_address",
     totalDeposit := J.sdkCoins (J.get p "total_deposit"), submitTime := J.intOf p "submit_time", depositEnd := J.intOf p "deposit_end_time",
     votingStart := J.intOf p "voting_start_time", votingEnd := J.intOf p "voting_end_time",
